@@ -193,6 +193,10 @@ class Types:
                 if mi:
                     out.append(("boundmethod", mi.qual, u[1]))
                     continue
+                eb = [b for b in self.prog.ext_bases(ci) if b not in ("object",)]
+                if eb:
+                    out.append(("ext", eb[0] + "." + attr))
+                    continue
                 return None
             elif u[0] == "module":
                 r = self.prog.lookup_module_symbol(self.prog.modules[u[1]], attr)
@@ -688,6 +692,13 @@ class FnTypes:
         for k in e.keywords:
             kw[k.arg] = self.expr(k.value, env) if not isinstance(k.value, ast.Lambda) else ("lambda", k.value)
         ft = self.expr(e.func, env)
+        r = self._call(e, env, argts, kw, ft)
+        for a in list(argts) + list(kw.values()):
+            if a is not None and a[0] == "lambda" and id(a[1].body) not in self.types:
+                self.lambda_with(a[1], [], env)
+        return r
+
+    def _call(self, e: ast.Call, env, argts, kw, ft):
         # builtins with element semantics
         if isinstance(e.func, ast.Name) and e.func.id not in env:
             r = self.prog.resolve_name(self.m, self.f, e.func.id)
